@@ -461,14 +461,26 @@ func (e *vmEnvironment) loadProgram(location common.Location) (*Program, error) 
 
 	// If there is a program, but it is not compiled yet, compile it.
 	// Directly update the program (pointer), which will also update the program "cache" kept by the embedder.
-	if program != nil && program.compiledProgram == nil {
+	if program != nil {
+		e.ensureProgramCompiled(program, location)
+	}
+
+	return program, nil
+}
+
+// ensureProgramCompiled compiles the given program, if it is not compiled yet.
+// The program might be shared with concurrent executions (through the program "cache" of the embedder),
+// and compilation also updates the program's elaboration, so only one execution may compile it.
+func (e *vmEnvironment) ensureProgramCompiled(program *Program, location common.Location) {
+	program.compileLock.Lock()
+	defer program.compileLock.Unlock()
+
+	if program.compiledProgram == nil {
 		program.compiledProgram = e.compileProgram(
 			program.interpreterProgram,
 			location,
 		)
 	}
-
-	return program, nil
 }
 
 func (e *vmEnvironment) loadDesugaredElaboration(location common.Location) (*compiler.DesugaredElaboration, error) {
